@@ -83,3 +83,12 @@ def digit_char(v):
 
 def hex_char(v):
     return '0123456789abcdef'[v]
+
+
+def letter_char(v):
+    return 'abcdefghijklmnopqrstuvwxyz'[v]
+
+
+def make_unit_value(number, unit):
+    from recognizers_number_with_unit.number_with_unit.parsers import UnitValue
+    return UnitValue(number, unit)
